@@ -25,6 +25,7 @@ from calgen import Param, Std, one, zero  # noqa: E402
 from runner import Script, cx, hx, qs  # noqa: E402
 
 PROP = "C02"
+calgen.Scenario.rotate_prob = 0.5
 
 
 def guess_param(rng, truth, radius, F):
@@ -38,8 +39,6 @@ def guess_param(rng, truth, radius, F):
 
 def trl_scenario(rng, ctype, F):
     sc = calgen.Scenario(ctype, 2, 2, F, rng)
-    if rng.random() < 0.5:
-        sc.rotate_tracking()
     f = sc.freqs
     Rt = (0.7 + 0.3 * rng.random()) * np.exp(1j * rng.uniform(-np.pi, np.pi)) \
         * np.exp(-1j * 0.3 * (f - f[0]) / (f[-1] - f[0] + 1.0))
@@ -133,8 +132,6 @@ def near_trl_scenario(rng, ctype, F):
 def lm_scenario(rng, ctype, r, c, F, radius, corr_only=False):
     for _ in range(8):
         sc = calgen.Scenario(ctype, r, c, F, rng)
-        if rng.random() < 0.5:
-            sc.rotate_tracking()
         sc.sufficient_recipe(extras=0)
         ok, kappa = False, None
         sc.choose_entries()
